@@ -22,6 +22,10 @@
                            front of its first piece (teeth: a CR at the end of
                            one segment and the LF at the start of the next
                            leave the CR in the line).
+   variant = "capbuffer"   a held rest longer than Cap bytes (Cap stands for
+                           64 KiB) is thrown away: a long line arriving over
+                           several reads loses its head (teeth: C18.tail, and
+                           C18.lines when the terminator arrives).
    Variants are generators, never oracles.  The exhaustive configurations
    use {"code"}; the history dumps add the defective variants, and the driver
    checks that TLC's monitor flags them (bad # "") - the model has teeth.   *)
@@ -30,7 +34,8 @@ EXTENDS LinesOps, Naturals, TLC
 CONSTANTS NSock,     \* number of sockets (1 = client mode)
           Tokens,    \* byte alphabet
           MaxTotal,  \* total number of bytes delivered over all sockets
-          Variants   \* subset of {"code", "shared", "persegment"}
+          Cap,       \* the buffer cap of the "capbuffer" variant
+          Variants   \* subset of {"code", "shared", "persegment", "capbuffer"}
 
 VARIABLES variant,
           buf,    \* [1..NSock -> byte string]  the held partial line per socket
@@ -61,10 +66,11 @@ Read(s, seg) ==
   /\ LET key == IF variant = "shared" THEN 1 ELSE s
          r   == IF variant = "persegment" THEN SplitSeg(buf[key], seg)
                 ELSE Split(buf[key] \o seg)
-     IN /\ buf' = [buf EXCEPT ![key] = r[2]]
+         keep == IF variant = "capbuffer" /\ Len(r[2]) > Cap THEN <<>> ELSE r[2]
+     IN /\ buf' = [buf EXCEPT ![key] = keep]
         /\ Emit(<<Line("read", s, seg)>>
                 \o [i \in 1..Len(r[1]) |-> Line("line", s, r[1][i])]
-                \o <<Line("tail", s, r[2])>>)
+                \o <<Line("tail", s, keep)>>)
   /\ total' = total + Len(seg)
   /\ hist' = Append(hist, <<s, seg>>)
   /\ UNCHANGED variant
